@@ -14,4 +14,6 @@ CONTROLS = [
     dict(name="class_/parse.py: from-import of a function of function.parse inside the cycle",
          edits=[("cdd/class_/parse.py", "import cdd.function.parse\n", "import cdd.function.parse\nfrom cdd.function.parse import function as _function\n")],
          expect=r"import-first/cdd.function.parse"),
+    dict(name="BENIGN: a leaf module gains a standard-library import", benign=True,
+         edits=[("cdd/shared/pure_utils.py", "import string\n", "import string\nimport textwrap  # noqa: F401\n")]),
 ]
